@@ -46,7 +46,7 @@ def _cases():
 def extra_run(man, tier, seed):
     """library call cases_c15.run(tier, seed): every correspondence mismatch is stored as a concrete (line, impl, model) case,
     every finding outside KNOWN (failed_set_cov_mutates, failed_set_mu_mutates, forget_to_1_wrong, forget_to_0_wrong,
-    new_cholesky_cov_ne_sigma, new_cholesky_unchecked_ne_checked, params_roundtrip_ne, niw_draw_mean_scale, ln_f_stat_ne_sum,
+    new_cholesky_cov_ne_sigma, new_cholesky_unchecked_ne_checked, params_roundtrip_ne, niw_draw_mean_scale, iw_sample_ne_draws, iw_sample_mean, ln_f_stat_ne_sum,
     chain_rule, bayes_rule, sequential_ne_batch, ln_m_empty_not_zero, draw_moments, niw_accepts_nan_k, ln_f_stat_empty_not_zero)
     as a failure with its input"""
     try:
